@@ -451,7 +451,23 @@ func (c *Ctx) RenderToken(e RtEntry) string {
 	case "std":
 		return fmt.Sprintf(directive(e, verb, false), c.Value(t))
 	case "ptr":
-		return fmt.Sprintf(directive(e, verb, false), c.Value(t))
+		// fmtPointer (print.go:533): the pointer VALUE, never the methods of the operand
+		u := uint64(reflect.ValueOf(c.Value(t)).Pointer())
+		raw := e
+		raw.M &^= 32 | 64 // plusV / sharpV play no part in fmtInteger
+		switch {
+		case verb == 'v' && e.M&64 != 0: // (type)(0x..)
+			raw.M &^= 1
+			return fmt.Sprintf(directive(raw, 'x', true), u)
+		case verb == 'v' && u == 0:
+			return fmt.Sprintf(directive(raw, 'v', false), nil) // padString("<nil>")
+		case verb == 'v' || verb == 'p': // fmt0x64(u, !sharp)
+			force := e.M&1 == 0
+			raw.M &^= 1
+			return fmt.Sprintf(directive(raw, 'x', force), u)
+		default:
+			return fmt.Sprintf(directive(raw, verb, false), u)
+		}
 	case "elem":
 		return fmt.Sprintf(directive(e, verb, false), uint8(c.Subst(t.B)[e.N-1]))
 	case "elem0x":
